@@ -132,6 +132,12 @@ static mbstate_t state;
 // returns the number of bytes in c
 // returns -1 if c is not a valid utf8 character
 size_t utf8_char_to_string(char *s, int32_t c) {
+	// c32rtomb alone is not enough: glibc encodes everything up to 0x7FFFFFFF (up to 6 bytes, more than
+	// the 5 bytes the callers provide) and values above U+10FFFF are not characters
+	if (utf8_num_bytes_char((uint32_t)c) == (size_t)-1) {
+		s[0] = '\0';
+		return (size_t)-1;
+	}
 	size_t num_bytes = c32rtomb(s, c, &state);
 	if (num_bytes != (size_t)-1) {
 		s[num_bytes] = '\0';
